@@ -338,12 +338,14 @@ func cmdCheck(argv []string) {
 				crossEvery := jb.ts.CrossFrac
 				if crossEvery == 0 {
 					if *tier == "thorough" {
-						crossEvery = 1
+						crossEvery = 5
 					} else {
 						crossEvery = 7
 					}
 				}
-				opt := &Options{Solver: *solver, Cross: jb.idx%crossEvery == 0}
+				// cvc5 is one to two orders of magnitude slower than z3 on these queries: it gives its opinion on
+				// every fifth cross-checked instance only
+				opt := &Options{Solver: *solver, Cross: jb.idx%crossEvery == 0, CrossCvc5: jb.idx%(crossEvery*5) == 0}
 				var res InstanceRes
 				func() {
 					defer func() {
@@ -736,7 +738,7 @@ func writeEvidence(prop, tier string, seed int64, hs []HarnessSpec, results []In
 	}
 	assumes = append(assumes, "sequential semantics: goroutines are pending tasks run to completion, channels are FIFO queues; schedules are not explored",
 		"sizes are those listed under coverage.bounds; nothing is claimed beyond them",
-		"solver verdicts: z3 4.8.12 primary, z3 5.1.0 and cvc5 1.0 cross-check a subset (all in thorough)")
+		"solver verdicts: z3 4.8.12 primary, z3 5.1.0 and cvc5 1.0 z3 5.1.0 cross-checks every 7th instance in quick and every 5th in thorough, cvc5 every fifth of those; 120 s per second opinion")
 	sort.Strings(assumes)
 	ev := map[string]interface{}{
 		"property_id": prop,
